@@ -28,6 +28,13 @@ fn main() {
         std::fs::write(format!("{}1700000000001-bbbb.sai.tmp", dir), b"torn").unwrap();
         let list = io.load_block_file_list().await.unwrap_or_default();
         println!("LISTING {}", list.join(","));
+        // 2b. does a leftover temporary file of an interrupted write block the next write of that key?
+        std::fs::write("./data/wallet.tmp", b"torn").unwrap();
+        match io.save_wallet(&mut wallet).await {
+            Ok(()) => println!("STALE-TMP ok"),
+            Err(_) => println!("STALE-TMP error"),
+        }
+        let _ = std::fs::remove_file("./data/wallet.tmp");
         // 3. what does the wallet loader do with a short file?
         std::fs::write("./data/wallet", b"short").unwrap();
         std::panic::set_hook(Box::new(|_| {}));
